@@ -1,5 +1,5 @@
 SPECIFICATION Spec
-CONSTANTS NPts = 3  Need = 5  ThreadMarginal = TRUE
+CONSTANTS NPts = 3  Need = 5  CacheFeedsMarginal = FALSE  ThreadMarginal = TRUE
 CHECK_DEADLOCK FALSE
 INVARIANT Reproducible
 INVARIANT UnseededDiffer
